@@ -130,3 +130,45 @@ Proof.
     rewrite (aget_flatten_flat [46] hfs hinst Hf Hn k arr Hin).
     destruct (member_value arr (getd hinst k)); [reflexivity|]. now rewrite hdr_lookup_gen.
 Qed.
+
+(* ------------------------------------------------------------------ DateTime headers *)
+Definition day_ok (n : Z) : bool :=
+  let '(y, m, d) := civil_of_days n in
+  (days_of_civil y m d =? n) && (1 <=? m) && (m <=? 12) && (1 <=? d) && (d <=? 31) && (1 <=? y) && (y <=? 9999).
+
+(** days of the years 1900 .. 2199 *)
+Definition DAY_LO : Z := -25567.
+Definition DAY_CNT : Z := 109573.
+Fixpoint sweep (fuel : nat) (n : Z) : bool :=
+  match fuel with O => true | S f => day_ok n && sweep f (n + 1) end.
+Lemma sweep_spec fuel : forall lo, sweep fuel lo = true ->
+  forall n, lo <= n < lo + Z.of_nat fuel -> day_ok n = true.
+Proof.
+  induction fuel as [|f IH]; intros lo H n Hn; [lia|].
+  cbn [sweep] in H. apply andb_true_iff in H. destruct H as [H1 H2].
+  destruct (Z.eq_dec n lo) as [-> | Hne]; [assumption|].
+  apply (IH (lo + 1) H2). lia.
+Qed.
+Lemma days_swept : sweep (Z.to_nat DAY_CNT) DAY_LO = true.
+Proof. vm_compute. reflexivity. Qed.
+
+Lemma day_ok_range n : DAY_LO <= n < DAY_LO + DAY_CNT -> day_ok n = true.
+Proof.
+  intros H. apply (sweep_spec _ _ days_swept). rewrite Z2Nat.id by discriminate. exact H.
+Qed.
+
+(** the date written for an instant of the years 1900-2199 is a calendar date and time of day that
+    denotes exactly that instant: the header says WHEN, whatever the offset the value carried *)
+Theorem header_date_instant : forall e, -2208988800 <= e < 7258118400 ->
+  instant_of_fields (imf_fields e) = e /\
+  let '(y, m, d, hh, mi, ss) := imf_fields e in
+  1 <= y <= 9999 /\ 1 <= m <= 12 /\ 1 <= d <= 31 /\ 0 <= hh < 24 /\ 0 <= mi < 60 /\ 0 <= ss < 60.
+Proof.
+  intros e He. unfold imf_fields, instant_of_fields.
+  assert (Hd : DAY_LO <= e / 86400 < DAY_LO + DAY_CNT) by (unfold DAY_LO, DAY_CNT; lia).
+  pose proof (day_ok_range _ Hd) as Hok. unfold day_ok in Hok.
+  destruct (civil_of_days (e / 86400)) as [[y m] d].
+  repeat (apply andb_true_iff in Hok; destruct Hok as [Hok ?]).
+  assert (0 <= e mod 86400 < 86400) by (apply Z.mod_pos_bound; lia).
+  split; [|lia]. pose proof (Z.div_mod e 86400 ltac:(lia)). lia.
+Qed.
